@@ -77,7 +77,7 @@ func (s *PortManager) PickEphemeralPort(testPort func(p uint16) (bool, *tcpip.Er
 	offset := uint16(rand.Int31n(int32(count)))
 
 	for i := uint16(0); i < count; i++ {
-		port = FirstEphemeral + (offset+i)%count
+		port = FirstEphemeral + uint16((uint32(offset)+uint32(i))%uint32(count))
 		ok, err := testPort(port)
 		if err != nil {
 			return 0, err
